@@ -456,6 +456,7 @@ def _dump_record_model(ctx, rep):
     OBJ = MI.ModelObj("unencodable object")
     ECLS = MI.ModelObj("class AppError", {"__module__": "app.errors", "__name__": "AppError"})
     table = {"args": (1, "x", OBJ, None), "code": 5, "detail": None, "empty": "", "flag": False, "obj": OBJ, "zero": 0,
+             "trace": "t", "back": 7, "it": 1, "w": 2, "tb": "user text", "remote": 3,   # (pieces of the ignored names)
              "_private": 1, "__dunder__": 2, "with_traceback": "bound method", "_remote_tb": "old text"}
     listing = sorted(list(table) + ["ghost"])
 
